@@ -79,6 +79,7 @@ def strategy(tier):
         elif rel == "split":
             par["which"] = draw(st.integers(0, k - 1))
             par["salt"] = draw(st.integers(0, 10**6))
+        par["as_list"] = draw(st.booleans())
         return {"problem": p, "relation": rel, "par": par}
 
     return cases()
@@ -226,6 +227,19 @@ def transform(case):
     raise AssertionError(rel)
 
 
+def _as_list(p):
+    from vlib.gen_matrix import library_input
+
+    ham, kw = library_input(p)
+    if not isinstance(ham, dict):
+        return None
+    k = p["n_params"]
+    units = [tuple(int(i == j) for i in range(k)) for j in range(k)]
+    if set(ham) != {(0,) * k, *units}:
+        return None
+    return [ham[(0,) * k]] + [ham[u] for u in units], kw
+
+
 def check_case(case, enforce_all=False):
     out = Outcome()
     p = case["problem"]
@@ -250,6 +264,12 @@ def check_case(case, enforce_all=False):
         if a is not None and b is not None:
             in0, in1 = a, b
             out.labels.append("symbolic-matrix-input")
+    if in0 == (None, None) and case["par"].get("as_list"):
+        # problems whose terms are exactly the k first-order ones are also handed over in list form [H_0, H_1, ..., H_k]
+        a, b = _as_list(p), _as_list(q)
+        if a is not None and b is not None:
+            in0, in1 = a, b
+            out.labels.append("list-input")
     ctx0, res0 = mm.outputs(p, out, "original problem", *in0)
     if res0 is None:
         return out
